@@ -3,6 +3,10 @@
 import json, os
 HERE = os.path.dirname(os.path.dirname(os.path.abspath(__file__)))
 claims = json.load(open(os.path.join(HERE, "tools", "claims.json")))
+claims["claimed"] = {}
+for fn in sorted(os.listdir(os.path.join(HERE, "tools", "claims"))):
+    if fn.endswith(".json"):
+        claims["claimed"][fn[:-5]] = json.load(open(os.path.join(HERE, "tools", "claims", fn)))
 props = [json.loads(l) for l in open(os.path.join(HERE, "properties.jsonl"))]
 checks = []
 na = []
